@@ -65,6 +65,10 @@ def strategy():
         meth = [draw(st.integers(0, 9)) < meth_p for _ in range(L)]
         anchor = draw(st.sampled_from([0, 1, 2, L - 1, draw(st.integers(0, L - 1)), draw(st.integers(0, L - 1))]))
         nfrag = draw(st.sampled_from([1, 1, 2, 3, 4]))
+        # a molecule at the very start of the contig whose safe span is the single base 0 (one mate is trimmed down to that base)
+        edge0 = draw(st.integers(0, 11)) == 0
+        if edge0:
+            anchor = 0
         frags = []
         for _ in range(nfrag):
             ln1 = draw(st.integers(8, 45))
@@ -102,6 +106,11 @@ def strategy():
                     e2 = max(5, min(L, e2))
                     s2 = max(0, e2 - ln2)
                 r2 = [s2, e2]
+            if edge0:
+                if not r1_rev:
+                    s1, e1, r2 = 0, min(L, ln1), [0, 1]
+                else:
+                    s1, e1, r2 = 0, 1, [0, min(L, draw(st.integers(8, 45)))]
             reads = []
             for span in ([s1, e1], r2):
                 if span is None:
@@ -126,7 +135,9 @@ def strategy():
                 reads.append({'pos': s, 'cigar': ('%dS' % clip if clip else '') + '%dM' % (e - s),
                               'seq': 'A' * clip + ''.join(seq), 'qual': [30] * clip + qual})
             frags.append({'r1': reads[0], 'r2': reads[1]})
-        return {'tid': tid, 'cls': cls, 'r1_rev': r1_rev, 'taps_strand': taps_strand, 'X': X, 'frags': frags}
+        # allow_unsafe_base_calls: calls are also made outside the span both mates vouch for (and for single-end fragments)
+        return {'tid': tid, 'cls': cls, 'r1_rev': r1_rev, 'taps_strand': taps_strand, 'X': X, 'frags': frags,
+                'unsafe': draw(st.sampled_from([False, False, False, True]))}
 
     @st.composite
     def case(draw):
@@ -199,6 +210,10 @@ def expected_calls(ref, mol):
     X = mol['X']
     fcalls = []
     for f in mol['frags']:
+        if mol.get('unsafe'):
+            from .c13 import fragment_calls
+            fcalls.append({p: b for p, b in fragment_calls(f, mol['r1_rev'], False).items() if ref[p].upper() == X})
+            continue
         if f['r2'] is None:
             continue
         r1s, r1e = f['r1']['pos'], f['r1']['pos'] + ref_len(f['r1']['cigar'])
@@ -271,7 +286,8 @@ def eval_case(case):
                 # build the molecule
                 m = None
                 try:
-                    m = mcls(frags[0], taps=taps, reference=fasta, taps_strand=mol['taps_strand'])
+                    m = mcls(frags[0], taps=taps, reference=fasta, taps_strand=mol['taps_strand'],
+                             **({'allow_unsafe_base_calls': True} if mol.get('unsafe') else {}))
                     for fr in frags[1:]:
                         if not m.add_fragment(fr):
                             ok = False
